@@ -82,8 +82,8 @@ def desired_inner_inv(L, old, G, V):
 
 
 LOOPS = {
-    ("mysensors.handler", "handle_smartsleep", 1): Loop(desired_outer_inv, ghosts=["sent", "setcount", "setpay", "setjobs", "jobs_ok"]),
-    ("mysensors.handler", "handle_smartsleep", 2): Loop(desired_inner_inv, ghosts=["sent", "setcount", "setpay", "setjobs", "jobs_ok"]),
-    ("mysensors.sensor", "Sensor.init_smart_sleep_mode", 0): Loop(init_inv, modifies=["sensors.new_state"], rows={"sensors.new_state": "self"}),
-    ("mysensors.handler", "handle_smartsleep", 0): Loop(flush_queue_inv, modifies=["sensors.queue"], rows={"sensors.queue": "sensor"}, ghosts=["sent", "rawjobs", "jobs_ok"]),
+    ("mysensors.handler", "handle_smartsleep", 1): Loop(desired_outer_inv, ghosts=["sent", "setcount", "setpay", "setjobs", "jobs_ok"], header="for child in sensor.children.values()"),
+    ("mysensors.handler", "handle_smartsleep", 2): Loop(desired_inner_inv, ghosts=["sent", "setcount", "setpay", "setjobs", "jobs_ok"], header="for value_type, _ in child.values.items()"),
+    ("mysensors.sensor", "Sensor.init_smart_sleep_mode", 0): Loop(init_inv, modifies=["sensors.new_state"], rows={"sensors.new_state": "self"}, header="for child in self.children.values()"),
+    ("mysensors.handler", "handle_smartsleep", 0): Loop(flush_queue_inv, modifies=["sensors.queue"], rows={"sensors.queue": "sensor"}, ghosts=["sent", "rawjobs", "jobs_ok"], header="while sensor.queue"),
 }
